@@ -303,6 +303,11 @@ class Client(object):
         If not already connected make a nonblocking attempt
         Returns .connected
         """
+        if self.cutoff and self.reconnectable:  # established connection was lost
+            if self.timeout > 0.0 and self.timer.expired:  # wait timeout between attempts
+                self.reopen()
+                self.timer.restart()
+
         if not self.connected:
             self.connect()
 
